@@ -105,7 +105,9 @@ class History:
         elif c < .4:
             i = pick()
             s = self.pool[i]
-            w = r.choice([1, "a", [1, 2], {"a": 1}, {"a": {"b": [1]}}, [], None, 1.5, [..., 1], {"k": ...}])
+            w = r.choice([1, "a", [1, 2], {"a": 1}, {"a": {"b": [1]}}, [], None, 1.5, [..., 1], {"k": ...},
+                          {"a": 1, ...: ...}, {...: ...}, [{"id": 1, ...: ...}], {"a": {"b": 1, ...: ...}}, {"bad": ..., ...: ...},
+                          [1, ...], [..., 1, ...], {"a": [1, ...]}])
             owned = copy.deepcopy(w)
             before = deep_snapshot(owned)
             how = f"pool[{i}] % {owned!r}"
@@ -221,6 +223,38 @@ class History:
                     self.ctx.violation("repeating an operation on equal inputs gave different results", op=what,
                                        schema=repr(s), first=repr(a), second=repr(b))
             self.log.append(f"repeat ops on pool[{i}] and on an equal rebuild")
+
+
+def directed_value_purity(ctx):
+    """every substitution branch against values that carry `...` markers (element lists, `...: ...` entries, `...` members):
+    the value passed in is the same afterwards — whether the call returns or raises — and doing it again gives an equal result"""
+    schemas = [schema.dict, schema.dict({...: ...}), schema.dict({"a": schema.int, ...: ...}), schema.dict({"a": schema.dict}),
+               schema.list, schema.list(schema.dict), schema.list([schema.dict, ...]), schema.list([..., schema.dict({...: ...})]),
+               schema.any, schema.any(schema.dict, schema.none), schema.any(schema.dict({...: ...}), schema.list(schema.dict))]
+    values = [{"a": 1, ...: ...}, {...: ...}, {"id": 1, "name": "b", ...: ...}, {"bad": ..., ...: ...}, {"a": {"b": 1, ...: ...}},
+              [{"id": 1, ...: ...}], [{"id": 1, ...: ...}, {"id": 2, ...: ...}], [..., {"x": 1, ...: ...}], [1, ...], [..., 1, ...],
+              {"a": [1, ...]}, {"k": ...}, {}, []]
+    for s in schemas:
+        for v0 in values:
+            v = copy.deepcopy(v0)
+            shared = None
+            if isinstance(v, list) and len(v) == 1 and isinstance(v[0], dict):
+                v = [v[0], v[0]]        # the same object twice
+                shared = True
+            before = deep_snapshot(v)
+            outs = []
+            for _ in range(2):
+                try:
+                    outs.append(("ok", observe(substitute(s, v))))
+                except Exception as e:  # noqa: BLE001
+                    outs.append(("exc", type(e).__name__))
+            ctx.count("directed_value_purity_cases")
+            if deep_snapshot(v) != before:
+                ctx.violation("substitute mutated the value passed in", call=f"{s!r} % {v0!r}", before=before, after=deep_snapshot(v),
+                              same_object_twice=bool(shared))
+            elif outs[0] != outs[1]:
+                ctx.violation("repeating an operation on equal inputs gave different results", op="%", schema=repr(s), value=before,
+                              first=repr(outs[0])[:300], second=repr(outs[1])[:300])
 
 
 def order_independence(ctx):
@@ -371,6 +405,7 @@ def model_history(ctx, rnd, n):
 def run(ctx):
     runner.prove(ctx, MODULE, THEOREMS, FILES)
     directed_aliasing(ctx)
+    directed_value_purity(ctx)
     order_independence(ctx)
     steps = ctx.n(30, 100)
     for h in range(ctx.n(25, 80)):
